@@ -465,7 +465,7 @@ def r01_3(ctx, m):
                         if isinstance(src, ast.Name):
                             d = [x.node.value for x in p.events if x.kind == "stmt" and isinstance(x.node, ast.Assign) and norm(x.node.targets[0]) == src.id]
                             src = d[-1] if d else src
-                        if isinstance(src, ast.Call) and norm(src.func).endswith("reverse_cigar") and norm(src.args[0]) in (f"{rec}.{cig}", f"{rec}.{tags}['cg:Z:']", f"{rec}.{tags}.pop('cg:Z:')"):
+                        if isinstance(src, ast.Call) and src.args and (norm(src.func).endswith("reverse_cigar") or (lambda cal: cal is not None and emit.is_cigar_reverser(cal))(ctx.repo.resolve_call(f, src))) and norm(src.args[0]) in (f"{rec}.{cig}", f"{rec}.{tags}['cg:Z:']", f"{rec}.{tags}.pop('cg:Z:')"):
                             rev = True
                         else:
                             bad = (p, f"the CIGAR field is overwritten with `{norm(s.value)}`")
